@@ -170,23 +170,23 @@ def check_lints(check, funcs, rule_prefix: str = ''):
     except Exception:  # pylint: disable=broad-except
       continue
     for c, why in discarded_results(ff):
-      check.ob('R-DISCARD', fi, txt(c)[:80], False, f'the result of this call is thrown away ({why}): the update it computes never takes effect', node=c)
+      check.ob('R-DISCARD', fi, txt(c)[:80], False, f'the result of this call is thrown away ({why}): the update it computes never takes effect', node=c, exact=True)
     for why in override_mismatches(repo, fi):
       check.ob('R-OVERRIDE', fi, fi.qualname, False, f'{why}: code written against the interface behaves differently with this implementation',
-               node=fi.node)
+               node=fi.node, exact=True)
     for p in iterable_params(fi):
       for why in onepass_problems(ff, p):
         check.ob('R-ONEPASS', fi, f'iterable parameter {p}', False,
-                 f'{why}: a one-shot iterable (generator, map, filter, islice) is exhausted by the first use, so later uses see nothing')
+                 f'{why}: a one-shot iterable (generator, map, filter, islice) is exhausted by the first use, so later uses see nothing', exact=True)
     # dtype-preserving copies matter where client state of mixed dtype is copied (C02); a sum of trees (tree_sum) may start from x + 0
     for x, name in possibly_empty_indexing(ff):
       check.ob('R-EMPTY', fi, txt(x), False,
                f'`{name}` is created empty and only grows inside a loop: when the loop runs zero times (a length-1 input, an empty collection) '
-               f'`{txt(x)}` raises IndexError', node=x)
+               f'`{txt(x)}` raises IndexError', node=x, exact=True)
     for c, how in (bad_copies(ff) if getattr(check, 'prop', getattr(check, 'property_id', '')) in ('C02',) else []):
       check.ob('R-COPY', fi, txt(c)[:80], False,
                f'`{how}` is not a copy: it promotes bool leaves to integers (and weak types), so the copied state no longer has the dtype of '
-               'the original', node=c)
+               'the original', node=c, exact=True)
   check.ob('R-DISCARD', ('fedjax', '<functions in scope>'), f'{n} functions', True,
            'no discarded results, overrides agree with their base, iterable parameters are consumed once, copies copy', nontrivial=False)
 
